@@ -107,7 +107,7 @@ def check(case, ctx):
     from d42.substitution.errors import SubstitutionError
     spec = case["spec"]
     try:
-        S = specs.build(spec)
+        S = specs.build(spec, share={} if case.get("share") else None)
     except DeclarationError as e:
         ctx.skip_undeclarable(None, e)
         return
